@@ -119,6 +119,10 @@ pub fn log_eps(rng: &mut Rng) -> f64 {
 
 /// A point of the given class as (lon, lat) in degrees.
 pub fn point(rng: &mut Rng, fr: &Frame, class: &str) -> (f64, f64) {
+    // discontinuities of the projection located at run time (module `loci`; none on the unchanged tree) take a share of every class
+    if let Some(ll) = crate::loci::substitute(rng) {
+        return ll;
+    }
     match class {
         "uniform" => lonlat_from_unit(uniform_dir(rng)),
         "polar" => {
@@ -276,6 +280,9 @@ pub fn random_cell(rng: &mut Rng, res: i32) -> MCell {
 
 /// resolution drawn so that every resolution 0..=29 is hit, with extra weight on the extremes
 pub fn random_res(rng: &mut Rng) -> i32 {
+    if let Some(r) = crate::loci::take_hint_res(rng) {
+        return r;
+    }
     match rng.below(10) {
         0 => *rng.pick(&[0, 1, 2, 3]),
         1 => *rng.pick(&[26, 27, 28, 29]),
